@@ -1,5 +1,6 @@
 import RepeVerif.Lemmas.LifecycleRegistry
 import RepeVerif.Gen.Lifecycle
+import RepeVerif.Props.C16
 /-!
 # C15 — Connection lifecycle hooks fire once, in order, on every exit path
 
@@ -29,7 +30,9 @@ clause → theorem
 * disconnect callbacks run exactly once per accepted connection,
   on every exit path, after all its connect callbacks ......... `trace_shape`, `disconnect_exactly_once`,
                                                                `no_disconnect_while_live`, `exit_paths_reach_done`
-* never for a connection whose handshake failed ................ `handshake_failure_no_hooks`
+* never for a connection whose handshake failed ................ `handshake_failure_no_hooks`; which upgrades fail the path check:
+                                                               `path_validator_accepts_exactly_normalised`, `path_validator_root`,
+                                                               `normalize_path_shape`
 * cancel precedes the disconnect callbacks ...................... `cancel_before_disconnect_hooks`
 * handlers still running when the connection ends observe
   cancellation .................................................. `running_handlers_see_cancel`
@@ -39,6 +42,9 @@ clause → theorem
   present from connect until disconnect and absent afterwards ... `registry_presence` (uses C18's invariant and
                                                                step equations; every interleaving with calls made
                                                                for other peers)
+* a parked off-reader handler holding a permit when the
+  connection ends (composition with C16) ........................ `parked_handlers_cancelled_and_slots_freed` (uses `C16.exit_frees_slot`,
+                                                               `C16.all_exited_running_zero`)
 * (supporting) the writer task does not outlive the connection
   task; registry entry is released before the writer is awaited . `writer_torn_down_with_task`, `released_before_writer_drain`
 
@@ -47,6 +53,14 @@ drops its live locals; exercised by the correspondence runs), a disconnect hook 
 -/
 namespace Repe.C15
 open Repe.Lifecycle
+
+/- `Props/C16.lean` (imported for the composition theorem at the end) brings the off-reader model's
+`Repe.St`, `Repe.Ev`, `Repe.step`, `Repe.run` into scope; inside this namespace the bare names mean the
+lifecycle model's. -/
+abbrev St := Lifecycle.St
+abbrev Ev := Lifecycle.Ev
+abbrev step := Lifecycle.step
+abbrev run := Lifecycle.run
 
 /-- The source has the placement the theorems need (re-checked against the regenerated facts). -/
 theorem source_facts : Gen.Lifecycle.facts.ok = true := by decide
@@ -115,14 +129,14 @@ theorem failed_handshake_stays_unaccepted (c : Cfg) (a : Act) (as : List Act) (s
       (s'.accepted = false ∧ s'.phase = .done) := by
     intro s a s' ⟨h1, h2⟩ hs
     have ts := trySend_fields c s
-    cases a <;> simp only [step, h2] at hs <;> (repeat' split at hs) <;> (try (simp at hs)) <;>
+    cases a <;> simp only [step, Lifecycle.step, h2] at hs <;> (repeat' split at hs) <;> (try (simp at hs)) <;>
       (try (obtain ⟨_, hs⟩ := hs)) <;> (try subst hs) <;> simp_all [enqueue]
-  simp only [run] at hr
+  simp only [run, Lifecycle.run] at hr
   rcases h with rfl | rfl
-  · have : step c init .handshakeFail = some { init with phase := .done } := rfl
+  · have : Lifecycle.step c init .handshakeFail = some { init with phase := .done } := rfl
     rw [this] at hr
     exact (run_preserves (P := fun s => s.accepted = false ∧ s.phase = .done) hstep ⟨rfl, rfl⟩ hr).1
-  · have : step c init .abort = some (teardown c init) := rfl
+  · have : Lifecycle.step c init .abort = some (teardown c init) := rfl
     rw [this] at hr
     have e : (teardown c init).accepted = false ∧ (teardown c init).phase = .done := by
       simp [teardown, dropGuard, init]
@@ -159,7 +173,7 @@ theorem running_handlers_see_cancel (c : Cfg) (hc : c.F = Gen.Lifecycle.facts) (
     intro s a s' ⟨h1, h2⟩ hs
     refine ⟨token_step s a s' h1 hs, ?_⟩
     have ts := trySend_fields c s
-    cases a <;> simp only [step, h2] at hs <;> (repeat' split at hs) <;> (try (simp at hs)) <;>
+    cases a <;> simp only [step, Lifecycle.step, h2] at hs <;> (repeat' split at hs) <;> (try (simp at hs)) <;>
       (try (obtain ⟨_, hs⟩ := hs)) <;> (try subst hs) <;> simp_all [enqueue]
   exact run_preserves (P := fun s => s.token = true ∧ s.phase = .done) hstep ⟨ht, hd⟩ hrun
 
@@ -180,8 +194,8 @@ reader is entered, and responses are enqueued only by the reader or by handlers 
 theorem connect_notifies_first (c : Cfg) (hc : c.F = Gen.Lifecycle.facts) (s : St) (hr : Reachable c s) :
     s.wire.Pairwise NotifyFirst ∧ s.wire.Sublist s.log ∧
     ∀ pre f post, s.wire = pre ++ f :: post → f.isConnNotify = true → ∀ x ∈ pre, x.isResponse = false := by
-  have _hF : c.F.hooksBeforeReader = true := by rw [hc]; decide
-  have hw := winv_reachable hr
+  have hR : c.F.hooksBeforeReader = true := by rw [hc]; decide
+  have hw := winv_reachable hR hr
   have hsub : s.wire.Sublist s.log := List.Sublist.trans (List.sublist_append_left _ _) hw.sub
   have hp : s.wire.Pairwise NotifyFirst := List.Pairwise.sublist hsub hw.ord
   refine ⟨hp, hsub, fun pre f post heq hf x hx => ?_⟩
@@ -192,15 +206,27 @@ theorem connect_notifies_first (c : Cfg) (hc : c.F = Gen.Lifecycle.facts) (s : S
 
 /-- Everything a connect hook managed to queue while the channel had room is in the accepted-frame
 log ahead of every response: the log itself is ordered, not only its delivered part. -/
-theorem log_ordered (c : Cfg) (s : St) (hr : Reachable c s) : s.log.Pairwise NotifyFirst :=
-  (winv_reachable hr).ord
+theorem log_ordered (c : Cfg) (hc : c.F = Gen.Lifecycle.facts) (s : St) (hr : Reachable c s) :
+    s.log.Pairwise NotifyFirst :=
+  (winv_reachable (by rw [hc]; decide) hr).ord
 
 /-- **The writer goes with the task** (needs `AbortOnDrop`): once the task of an accepted connection is
 gone, its writer task has finished or has been aborted. -/
 theorem writer_torn_down_with_task (c : Cfg) (hc : c.F = Gen.Lifecycle.facts) (s : St) (hr : Reachable c s)
     (ha : s.accepted = true) (hd : s.phase = .done) : s.writer = .finished ∨ s.writer = .aborted := by
   have hA : c.F.abortOnDrop = true := by rw [hc]; decide
-  exact (rinv_reachable hA hr).gone ha hd
+  have hW : c.F.writerBeforeGuard = true := by rw [hc]; decide
+  exact (rinv_reachable hA hW hr).gone ha hd
+
+/-- **The writer runs for as long as the connection is served** (needs the writer to be spawned before
+the guard, i.e. before any hook or handler can queue a frame): in every state of an accepted
+connection the writer task has been spawned, so every queued frame can be taken (`writerSend` is
+enabled whenever the queue is non-empty and the writer has not failed). -/
+theorem writer_runs_while_served (c : Cfg) (hc : c.F = Gen.Lifecycle.facts) (s : St) (hr : Reachable c s)
+    (ha : s.accepted = true) : s.writer ≠ .notSpawned := by
+  have hA : c.F.abortOnDrop = true := by rw [hc]; decide
+  have hW : c.F.writerBeforeGuard = true := by rw [hc]; decide
+  exact (rinv_reachable hA hW hr).spawned ha
 
 /-- **Released before the writer is awaited** (needs the guard to be a local of the reader's block):
 while the task waits for its writer, the disconnect hooks have already run. -/
@@ -356,8 +382,138 @@ example : outcome (withFacts { Facts.good with cancelBeforeHooks := false }) (ho
 example : (run (withFacts { Facts.good with guardInReaderBlock := false }) init (hooksOk ++ [.readerExit .close])).map
     (fun s => (s.phase, s.guard, s.token)) = some (.draining, .armed, false) := by decide
 
+/-- the reader started before the hook loops are over: a response overtakes a connect-hook notify -/
+example : (run (withFacts { Facts.good with hooksBeforeReader := false }) init
+      [.handshakeOk, .hookStart, .hookReturn, .earlyResponse 1, .hookStart, .hookNotify 0, .hookReturn,
+       .writerSend, .writerSend]).map (fun s => s.wire) = some [.response 1, .connNotify 1 0] := by decide
+
+/-- writer spawned only after the guard (after the block): a connect-hook panic loses every queued
+notify — no writer ever exists — and while the connection is served nothing reaches the wire -/
+example : (run (withFacts { Facts.good with writerBeforeGuard := false }) init
+      [.handshakeOk, .hookStart, .hookNotify 0, .hookPanic]).map (fun s => (s.writer, s.queue, s.wire)) =
+    some (.notSpawned, [.connNotify 0 0], []) := by decide
+example : run (withFacts { Facts.good with writerBeforeGuard := false }) init
+      [.handshakeOk, .hookStart, .hookNotify 0, .hookReturn, .writerSend] = none := by decide
+
 /-- no `AbortOnDrop`: an aborted task leaves its writer running -/
 example : (run (withFacts { Facts.good with abortOnDrop := false }) init (hooksOk ++ [.abort])).map
     (fun s => (s.phase, s.writer)) = some (.done, .signalled) := by decide
+
+/-! ### which handshakes are accepted: `normalize_path` + `WebSocketPathValidator` -/
+
+/-- The model of the path check and of the error report is the code's: the validator answers `Ok` exactly
+under `request.uri().path() == self.expected`, `normalize_path` has the three modelled branches, and
+`accept_and_serve` reports once per outcome (re-extracted from the source on every run). -/
+theorem handshake_source_forms :
+    Gen.Lifecycle.pathCheckExact = true ∧ Gen.Lifecycle.normalizeThreeBranches = true ∧
+    Gen.Lifecycle.oneErrorReportPerOutcome = true := by decide
+
+/-- **Path validator.**  Every spelling of a configured path `b` — with or without the leading slash,
+with any number of trailing slashes — accepts exactly the request path `/b` (compared verbatim: a
+request for `/b/` is rejected), so exactly those upgrades become accepted connections with hooks. -/
+theorem path_validator_accepts_exactly_normalised (b : List Char) (hb0 : b ≠ []) (hh : b.head? ≠ some '/')
+    (hl : b.getLast? ≠ some '/') (lead : Bool) (k : Nat) (req : List Char) :
+    pathAccepted ((if lead then ['/'] else []) ++ b ++ List.replicate k '/') req = true ↔ req = '/' :: b := by
+  have key : normalizePath ((if lead then ['/'] else []) ++ b ++ List.replicate k '/') = '/' :: b := by
+    obtain ⟨x, xs, rfl⟩ := List.exists_cons_of_ne_nil hb0
+    have hx : x ≠ '/' := by simpa using hh
+    cases lead with
+    | true =>
+      have hl' : ('/' :: x :: xs).getLast? ≠ some '/' := by simpa [List.getLast?_cons_cons] using hl
+      have := trimSlashes_append_replicate ('/' :: x :: xs) k hl'
+      simp only [List.cons_append, List.nil_append, if_true] at this ⊢
+      simp [normalizePath, this]
+    | false =>
+      have := trimSlashes_append_replicate (x :: xs) k hl
+      simp only [List.cons_append, List.nil_append] at this ⊢
+      simp [normalizePath, this, hx]
+  unfold pathAccepted
+  rw [key]
+  simp
+
+/-- the root: an empty or `/` configured path accepts exactly `/` -/
+theorem path_validator_root (req : List Char) :
+    (pathAccepted [] req = true ↔ req = ['/']) ∧ (pathAccepted ['/'] req = true ↔ req = ['/']) := by
+  simp [pathAccepted, normalizePath]
+
+/-- what `normalize_path` can return: `/`, or something that starts with `/` and does not end with one,
+or — only for a configured path made of two or more slashes — the empty string, which no request path
+equals (such a server accepts nothing; recorded in notes/C15.md, harmless for the property). -/
+theorem normalize_path_shape (p : List Char) :
+    normalizePath p = ['/'] ∨ normalizePath p = [] ∨
+    ((normalizePath p).head? = some '/' ∧ (normalizePath p).getLast? ≠ some '/') := by
+  unfold normalizePath
+  split
+  · exact Or.inl rfl
+  · split
+    · rename_i hh
+      cases ht : trimSlashes p with
+      | nil => exact Or.inr (Or.inl rfl)
+      | cons x xs =>
+        have hx := trimSlashes_head p x xs ht
+        rw [hh] at hx
+        refine Or.inr (Or.inr ⟨by simpa using hx.symm, ht ▸ trimSlashes_no_trailing p⟩)
+    · cases ht : trimSlashes p with
+      | nil => exact Or.inl rfl
+      | cons x xs =>
+        refine Or.inr (Or.inr ⟨rfl, ?_⟩)
+        rw [List.getLast?_cons_cons, ← ht]
+        exact trimSlashes_no_trailing p
+
+example : pathAccepted "repe/".toList "/repe".toList = true ∧ pathAccepted "/repe".toList "/repe/".toList = false ∧
+    normalizePath "//".toList = [] ∧ normalizePath "a/b//".toList = "/a/b".toList := by decide
+
+/-! ### composition with C16: a parked off-reader handler holding a permit when the connection ends
+
+`Model/OffReader.lean` (C16) is the permit bookkeeping of the same connection: `Repe.St.running` are the
+handlers `spawn_off_reader` admitted, each holding one of the connection's permits.  The lifecycle
+model's `handlers` are their ids.  When the connection task is gone the blocking threads live on. -/
+
+/-- Every handler the lifecycle model says is still running is a running handler of the off-reader
+bookkeeping `o`. -/
+def CoupledOff (s : St) (o : Repe.St) : Bool :=
+  s.handlers.all (fun h => o.running.any (fun r => r.id == h))
+
+/-- **Parked handlers after the end.**  Take any state in which the task of an accepted connection is
+gone, with off-reader bookkeeping `o` satisfying C16's invariant.  Every handler `h` still running
+(parked or not) (1) reads a cancelled token through `ctx.is_cancelled()`, now and along every
+continuation; (2) can return in any way: its return is a move of the lifecycle model (its response is
+discarded — the writer is gone — and nothing else changes) and (3) by C16's `exit_frees_slot` that
+return (value, error or panic) frees its slot: one fewer handler runs, C16's invariant is kept, and
+with a cap the permit count drops by one; (4) once all of them have returned no permit is held
+(`all_exited_running_zero`). -/
+theorem parked_handlers_cancelled_and_slots_freed (c : Cfg) (hc : c.F = Gen.Lifecycle.facts) (s : St)
+    (hr : Reachable c s) (ha : s.accepted = true) (hd : s.phase = .done)
+    (o : Repe.St) (hi : Repe.Inv o) (hco : CoupledOff s o = true)
+    (h : Nat) (hh : h ∈ s.handlers) (k : Repe.ExitKind) (resp : Option Nat) :
+    seenByHandlers s = true ∧
+    (∀ as s', run c s as = some s' → seenByHandlers s' = true) ∧
+    (∃ s', step c s (.offFinish h resp) = some s' ∧ s'.handlers = s.handlers.erase h ∧ s'.wire = s.wire ∧
+      s'.log = s.log ∧ s'.trace = s.trace ∧ seenByHandlers s' = true) ∧
+    (let o' := Repe.step Gen.offFacts o (.exit h k)
+     o'.running.length + 1 = o.running.length ∧ Repe.Inv o' ∧
+     ∀ cap, o.cap = some cap → o'.permits + 1 = o.permits ∧ o'.running.length < cap) ∧
+    (∀ ks : Repe.Run → Repe.ExitKind,
+      let o' := Repe.run Gen.offFacts o (o.running.map (fun r => Repe.Ev.exit r.id (ks r)))
+      o'.running = [] ∧ ∀ cap, o.cap = some cap → o'.permits = 0) := by
+  obtain ⟨h1, h2⟩ := running_handlers_see_cancel c hc s hr ha hd
+  have hw := writer_torn_down_with_task c hc s hr ha hd
+  have hrun : ∃ r ∈ o.running, r.id = h := by
+    simp only [CoupledOff, List.all_eq_true, List.any_eq_true, beq_iff_eq] at hco
+    exact hco h hh
+  have hclosed : chanOpen { s with handlers := s.handlers.erase h } = false := by
+    rcases hw with hw | hw <;> simp [chanOpen, hw, hd]
+  refine ⟨h1, fun as s' hrn => (h2 as s' hrn).1, ?_, C16.exit_frees_slot o hi h k hrun, fun ks => ?_⟩
+  · cases resp with
+    | none => exact ⟨{ s with handlers := s.handlers.erase h }, by simp [step, Lifecycle.step, hh], rfl, rfl, rfl, rfl, h1⟩
+    | some id => exact ⟨{ s with handlers := s.handlers.erase h }, by simp [step, Lifecycle.step, hh, hclosed], rfl, rfl, rfl, rfl, h1⟩
+  · have := C16.all_exited_running_zero o hi ks
+    exact ⟨this.1, this.2.1⟩
+
+/-- the hypotheses are satisfiable: embedder cancellation with handler 7 parked, holding one of two permits -/
+example :
+    let s := (run demo init (hooksOk ++ [.recvOff 7, .parentCancel, .selectCancelled, .writerFinish, .writerJoined])).getD init
+    let o := Repe.run Gen.offFacts (Repe.St.init (some 2)) [.arrive ⟨7, .blocking, false, false, 0⟩]
+    s.phase = .done ∧ s.accepted = true ∧ 7 ∈ s.handlers ∧ CoupledOff s o = true ∧ o.permits = 1 := by decide
 
 end Repe.C15
